@@ -145,7 +145,7 @@ pub fn property() -> Property {
         parts: vec![Box::new(GenPart {
             name: "peek-vs-decap",
             rule: "see property rule",
-            cases: (360_000, 3_000_000),
+            cases: (360_000, 9_000_000),
             fuzz_decode: Some(crate::fuzzdec::c19_case),
             strategy,
             check,
